@@ -25,6 +25,7 @@ RULE = (
     '8 (log2 N + 4) eps sum|band| max|x|; as_matrix == block diagonal of the per-row T; op.T is op; output shape and '
     'dtype == input\'s. non-trivial = partial last block, or >= 2 blocks, or K > n, or K == 1, or fft_size == 2K-1, or '
     'a broadcast band batch.'
+    ' Also: a second operator with the same layout and other band values (its own as_matrix and product); long inputs of 1000-9000 samples (around powers of two, exact multiples of the overlap-save step, odd FFT sizes) for the direct, fft and overlap_save methods against a matrix-free shift-and-add reference.'
 )
 ASSUMPTIONS = [
     'band batch shape broadcastable TO the input batch shape without enlarging it (class docstring)',
